@@ -133,6 +133,17 @@ def build_pool(name, rng, size=40, respell=0.3, need_hash=True):
                 p.insert(s3, S.make(name, s3))
             except Exception:  # noqa: BLE001
                 pass
+        if rng.random() < 0.25:
+            # the same text with the case of one letter changed (another version where case matters, another
+            # spelling where it does not: either way nothing may confuse the two by folding case)
+            idx = [i for i, ch in enumerate(s) if ch.isalpha() and ch.isascii()]
+            if idx:
+                i = rng.choice(idx)
+                s4 = s[:i] + s[i].swapcase() + s[i + 1:]
+                try:
+                    p.insert(s4, S.make(name, s4))
+                except Exception:  # noqa: BLE001
+                    pass
         if rng.random() < respell:
             # other spellings of the SAME version (up to two), found among a few respellings; a respelling that
             # turns out to be another version is inserted as such
